@@ -10,7 +10,7 @@ for id in "${ids[@]}"; do
   d=seeded/$id; [ -f "$d/patch.diff" ] || continue
   prop=$(python3 -c "import json;print(json.load(open('$d/meta.json'))['breaks_property'])")
   if ! git -C /repo diff --quiet; then echo "/repo has uncommitted changes; refusing"; exit 2; fi
-  if ! git -C /repo apply "$d/patch.diff" 2>/dev/null; then printf "%s\t%s\tPATCH-NO-LONGER-APPLIES\n" "$id" "$prop" >> "$out.tmp"; continue; fi
+  if ! git -C /repo apply "/verif/$d/patch.diff" 2>/dev/null; then printf "%s\t%s\tPATCH-NO-LONGER-APPLIES\n" "$id" "$prop" >> "$out.tmp"; continue; fi
   log=$(./check "$prop" quick 2>&1); rc=$?
   git -C /repo checkout -- .
   v=$(echo "$log" | grep -m1 "^VIOLATION" | sed 's/.*signature=//' | cut -c1-140)
